@@ -1,4 +1,173 @@
-import HugrVerif.Store
+/-
+  C04 — The HUGR graph store agrees with a sequential port-multigraph model.
+  Property theorems only.  Model: `Store.lean` (mirrors hugr/hugr/base.py);
+  lemmas: `Proofs/StoreLinks.lean`, `Proofs/Store.lean`, `Proofs/StoreNodes.lean`, `Proofs/StoreInv.lean`.
+
+  The abstract ("sequential port-multigraph") view of a store is: the live nodes with their data
+  (`getNode`), and the LIST of links `linksList` (`links()`).  The theorems say that every mutator
+  acts on this view exactly as the plain model does, and that every query is a function of it.
+-/
+import HugrVerif.Proofs.StoreInv
+
 namespace HugrVerif.Props.C04
-theorem placeholder : True := trivial
+open HugrVerif HugrVerif.Store HugrVerif.Py
+
+variable {Ω μ : Type}
+
+/-- The mutators the property quantifies over (`add_const` is `add_node` with a constant payload). -/
+inductive Op (Ω μ : Type) where
+  | addNode (op : Ω) (parent : Option Nat) (numOuts : Option Nat) (m : μ)
+  | addLink (src dst : Port)
+  | addOrderLink (src dst : Nat)
+  | deleteLink (src dst : Port)
+  | deleteNode (n : Nat)
+  | insertHugr (b : Store Ω μ) (parent : Option Nat)
+
+/-- Ports are value ports (offset ≥ 0) or the order port (-1); an inserted HUGR is itself reachable. -/
+def Op.WF : Op Ω μ → Prop
+  | .addLink src dst => -1 ≤ src.2 ∧ -1 ≤ dst.2
+  | .deleteLink _ _ => True
+  | .insertHugr b _ => SInv b
+  | _ => True
+
+def step (s : Store Ω μ) : Op Ω μ → Except Err (Store Ω μ)
+  | .addNode op p k m => (addNode s op p k m).map (·.1)
+  | .addLink a b => addLink s a b
+  | .addOrderLink a b => addOrderLink s a b
+  | .deleteLink a b => deleteLink s a b
+  | .deleteNode n => deleteNode s n
+  | .insertHugr b p => (insertHugr s b p).map (·.1)
+
+/-- A history: every call returns normally (a raising call ends the history). -/
+def run (s : Store Ω μ) : List (Op Ω μ) → Except Err (Store Ω μ)
+  | [] => .ok s
+  | o :: os => match step s o with
+    | .ok s' => run s' os
+    | .error e => .error e
+
+theorem step_inv (s s' : Store Ω μ) (hs : SInv s) (o : Op Ω μ) (hw : o.WF) (h : step s o = .ok s') : SInv s' := by
+  cases o with
+  | addNode op p k m =>
+    simp only [step] at h
+    cases ha : addNode s op p k m with
+    | error e => simp [ha, Except.map] at h
+    | ok r => simp [ha, Except.map] at h; subst h; exact sinv_addNode s r.1 hs op p k m r.2 ha
+  | addLink a b => exact sinv_addLink s s' hs a b hw.1 hw.2 h
+  | addOrderLink a b => exact sinv_addOrderLink s s' hs a b h
+  | deleteLink a b => exact sinv_deleteLink s s' hs a b h
+  | deleteNode n => exact sinv_deleteNode s s' hs n h
+  | insertHugr b p =>
+    simp only [step] at h
+    cases ha : insertHugr s b p with
+    | error e => simp [ha, Except.map] at h
+    | ok r => simp [ha, Except.map] at h; subst h; exact sinv_insertHugr s r.1 b hs hw p r.2 ha
+
+/-- **Main invariant, for every finite history** from a fresh HUGR: the link map is an exact
+    bijection with contiguous sub-offsets, every link endpoint is a live node whose reported port
+    count exceeds the offset, and the free list is exactly the set of deleted slots. -/
+theorem reachable_inv (rootOp : Ω) (m : μ) (ops : List (Op Ω μ)) (hw : ∀ o ∈ ops, o.WF)
+    (s : Store Ω μ) (h : run (init rootOp m) ops = .ok s) : SInv s := by
+  have gen : ∀ (ops : List (Op Ω μ)) (s0 s : Store Ω μ), SInv s0 → (∀ o ∈ ops, o.WF) → run s0 ops = .ok s → SInv s := by
+    intro ops
+    induction ops with
+    | nil => intro s0 s h0 _ h; simp [run] at h; subst h; exact h0
+    | cons o os ih =>
+      intro s0 s h0 hw h
+      simp only [run] at h
+      cases hs : step s0 o with
+      | error e => simp [hs] at h
+      | ok s1 =>
+        simp only [hs] at h
+        exact ih s1 s (step_inv s0 s1 h0 o (hw o (by simp)) hs) (fun o' ho' => hw o' (by simp [ho'])) h
+  exact gen ops _ s (sinv_init rootOp m) hw h
+
+/-! ### queries are functions of the multigraph view -/
+
+/-- **Every link is reported exactly once from its source end**: `linked_ports(out_port)` is a
+    permutation of the targets that `links()` lists for that port. -/
+theorem linked_ports_out (s : Store Ω μ) (hs : SInv s) (p : Port) :
+    (linkedOut s p).Perm (((linksList s).filter (fun l => decide (l.1 = p))).map (·.2)) :=
+  linkedOut_perm s hs.links p
+
+/-- … and exactly once from its target end. -/
+theorem linked_ports_in (s : Store Ω μ) (hs : SInv s) (p : Port) :
+    (linkedIn s p).Perm (((linksList s).filter (fun l => decide (l.2 = p))).map (·.1)) :=
+  linkedIn_perm s hs.links p
+
+/-- `has_link` is membership in `links()`. -/
+theorem has_link_iff (s : Store Ω μ) (hs : SInv s) (src dst : Port) :
+    hasLink s src dst = true ↔ (src, dst) ∈ linksList s :=
+  hasLink_iff s hs.links src dst
+
+/-- **Reported port counts are never smaller than the highest offset in use plus one**, and no link
+    mentions a node that is not live. -/
+theorem port_count_lower_bound (s : Store Ω μ) (hs : SInv s) (l : Port × Port) (hl : l ∈ linksList s) :
+    (∃ d, getNode s l.1.1 = .ok d ∧ l.1.2 + 1 ≤ (d.numOuts : Int)) ∧
+    (∃ d, getNode s l.2.1 = .ok d ∧ l.2.2 + 1 ≤ (d.numInps : Int)) := by
+  obtain ⟨⟨d1, a, _, b⟩, ⟨d2, c, _, e⟩⟩ := hs.bound l hl
+  exact ⟨⟨d1, a, b⟩, ⟨d2, c, e⟩⟩
+
+/-! ### mutators act on the view as the sequential model does -/
+
+/-- `add_link` appends exactly one link; nodes keep their data, port counts only grow. -/
+theorem add_link_appends (s s' : Store Ω μ) (hs : SInv s) (src dst : Port) (h : addLink s src dst = .ok s') :
+    linksList s' = linksList s ++ [(src, dst)] ∧ StoreGrow s s' :=
+  ⟨(addLink_links s s' hs.links src dst h).1, (addLink_nodes s s' src dst h).1⟩
+
+/-- `add_order_link` adds the order link unless it is already there. -/
+theorem add_order_link_spec (s s' : Store Ω μ) (hs : SInv s) (a b : Nat) (h : addOrderLink s a b = .ok s') :
+    linksList s' = if ((a, -1), (b, -1)) ∈ linksList s then linksList s else linksList s ++ [((a, -1), (b, -1))] := by
+  unfold addOrderLink at h
+  by_cases hh : hasLink s (a, -1) (b, -1) = true
+  · simp [hh, pure, Except.pure] at h; subst h
+    simp [(has_link_iff s hs _ _).mp hh]
+  · simp only [hh] at h
+    have hn : ((a, (-1 : Int)), (b, (-1 : Int))) ∉ linksList s := fun hm => hh ((has_link_iff s hs _ _).mpr hm)
+    simp only [hn, if_false]
+    exact (addLink_links s s' hs.links _ _ h).1
+
+/-- **Deleting one link removes exactly that one**; it never raises; nodes are untouched. -/
+theorem delete_link_exactly_one (s : Store Ω μ) (hs : SInv s) (src dst : Port) :
+    ∃ s', deleteLink s src dst = .ok s' ∧ s'.nodes = s.nodes ∧
+      (((src, dst) ∈ linksList s ∧ (linksList s).Perm ((src, dst) :: linksList s')) ∨
+       ((src, dst) ∉ linksList s ∧ s' = s)) := by
+  obtain ⟨s', e, _, hn, _, hc⟩ := deleteLink_links s hs.links src dst
+  exact ⟨s', e, hn, hc⟩
+
+/-- **A deleted node is unreachable and no remaining link mentions it**; exactly the links that
+    mentioned it are gone; every other node keeps its index and data. -/
+theorem delete_node_spec (s s' : Store Ω μ) (hs : SInv s) (n : Nat) (h : deleteNode s n = .ok s') :
+    (∀ x, getNode s' n ≠ .ok x) ∧
+    (linksList s').Perm ((linksList s).filter (fun l => decide (l.1.1 ≠ n) && decide (l.2.1 ≠ n))) ∧
+    (∀ l ∈ linksList s', l.1.1 ≠ n ∧ l.2.1 ≠ n) ∧
+    (∀ j d, j ≠ n → getNode s j = .ok d → ∃ d', getNode s' j = .ok d' ∧ NodeKeep d d') := by
+  obtain ⟨_, a, b, _, _, _, _, c, _⟩ := deleteNode_spec s s' hs.links hs.bound hs.free n h
+  refine ⟨a, b, ?_, c⟩
+  intro l hl
+  have := (List.mem_filter.mp (b.mem_iff.mp hl)).2
+  simpa using this
+
+/-- **`add_node` returns an index that was not live** (a new one or a reused free slot), the node
+    is live afterwards with the given operation, parent, metadata and the requested number of
+    out-ports; links are untouched and **every live node keeps its index** and data. -/
+theorem add_node_spec (s s' : Store Ω μ) (hs : SInv s) (op : Ω) (parent : Option Nat)
+    (numOuts : Option Nat) (m : μ) (i : Nat) (h : addNode s op parent numOuts m = .ok (s', i)) :
+    (∀ x, getNode s i ≠ .ok x) ∧
+    (∃ d, getNode s' i = .ok d ∧ d.op = op ∧ d.parent = some (parent.getD s.root) ∧ d.md = m ∧
+      d.numOuts = numOuts.getD 0) ∧
+    linksList s' = linksList s ∧
+    (∀ j d, j ≠ i → getNode s j = .ok d → ∃ d', getNode s' j = .ok d' ∧ NodeSame d d' ∧
+      d'.numInps = d.numInps ∧ d'.numOuts = d.numOuts) := by
+  obtain ⟨a, ⟨d, b1, b2, b3, b4, _, b6⟩, c, _, e, _, _⟩ := addNodeRaw_spec s s' hs.free op _ numOuts m i h
+  exact ⟨a, ⟨d, b1, b2, b3, b4, b6⟩, linksList_congr s s' e, c⟩
+
+/-- Non-vacuity: a concrete history with fan-out, an order link, a deletion in the middle of a
+    multiply connected port, a node deletion and index reuse runs without raising. -/
+example :
+    (run (init "module" ([] : List Nat))
+      [.addNode "a" none (some 2) [], .addNode "b" none none [], .addLink (1, 0) (2, 0),
+       .addLink (1, 0) (2, 1), .addLink (1, 0) (2, 0), .addOrderLink 1 2,
+       .deleteLink (1, 0) (2, 1), .deleteNode 2, .addNode "c" (some 1) (some 1) []]).isOk = true := by
+  decide
+
 end HugrVerif.Props.C04
